@@ -532,43 +532,48 @@ func c13FailedOpen(c *explore.Ctx) {
 			if c.Expired() || c.NViolations() > 0 {
 				return
 			}
-			img := unclean.Clone()
-			img.FailAt = n
-			db, err := pogreb.Open(explore.DBPath, base.Cfg.Options(img))
-			c.Add("executions", 1)
-			c.Add("failed_open_probes", 1)
-			c.Add("transitions", 2)
-			if err == nil {
-				_ = db.Close()
-				if img.FailAt > 0 && !injectedHit(img, n) {
-					done = true // the recovering Open makes fewer than n mutating calls
-				}
-				continue
-			}
-			// the failed process is gone; a new one opens the directory as the failed Open left it
-			next := img.Clone()
-			next.Record = true
-			rec := explore.RecoverImage(next, base.Cfg, base.Keys, base.Probe, 0, explore.RecoverOpts{KeepLog: true})
-			c.Distinct("outcome", explore.Hash64("fo", bc[0], next.Hash()))
-			msg := ""
-			switch {
-			case rec.OpenErr != "":
-				msg = "the next Open failed: " + rec.OpenErr
-			case !explore.RanRecovery(rec.OpenLog):
-				msg = "the next Open did not run recovery although the last session never completed Close"
-			case rec.Internal != "":
-				msg = "the recovered database is inconsistent: " + rec.Internal
-			case !base.Model.Equal(rec.Contents):
-				msg = "the next Open shows wrong contents: " + base.Model.Diff(rec.Contents, func(k string) string { return fmt.Sprintf("%x", k) })
+			fewer, openErr, msg := c13FailedOpenCase(c, base, bc[0], unclean, n)
+			if fewer {
+				done = true // the recovering Open makes fewer than n mutating calls
 			}
 			if msg != "" {
 				c.Violation(explore.Violation{Key: fmt.Sprintf("failed-open base=%s cfg=%s fault@%d", bc[0], bc[1], n),
-					What: fmt.Sprintf("unclean directory %s/%s; an Open fails with an injected I/O error at its mutating file-system call #%d (%v); then: %s", bc[0], bc[1], n, err, msg), Size: n,
+					What: fmt.Sprintf("unclean directory %s/%s; an Open fails with an injected I/O error at its mutating file-system call #%d (%v); then: %s", bc[0], bc[1], n, openErr, msg), Size: n,
 					Replay: map[string]interface{}{"kind": "failopen13", "base": bc[0], "cfg": bc[1], "fault_at": n, "observed": msg}})
 				return
 			}
 		}
 	}
+}
+
+// c13FailedOpenCase: fewer = the recovering Open makes fewer than n mutating calls.
+func c13FailedOpenCase(c *explore.Ctx, base *explore.Base, bname string, unclean *simfs.FS, n int) (fewer bool, openErr error, msg string) {
+	img := unclean.Clone()
+	img.FailAt = n
+	db, err := pogreb.Open(explore.DBPath, base.Cfg.Options(img))
+	c.Add("executions", 1)
+	c.Add("failed_open_probes", 1)
+	c.Add("transitions", 2)
+	if err == nil {
+		_ = db.Close()
+		return img.FailAt > 0 && !injectedHit(img, n), nil, ""
+	}
+	// the failed process is gone; a new one opens the directory as the failed Open left it
+	next := img.Clone()
+	next.Record = true
+	rec := explore.RecoverImage(next, base.Cfg, base.Keys, base.Probe, 0, explore.RecoverOpts{KeepLog: true})
+	c.Distinct("outcome", explore.Hash64("fo", bname, next.Hash()))
+	switch {
+	case rec.OpenErr != "":
+		msg = "the next Open failed: " + rec.OpenErr
+	case !explore.RanRecovery(rec.OpenLog):
+		msg = "the next Open did not run recovery although the last session never completed Close"
+	case rec.Internal != "":
+		msg = "the recovered database is inconsistent: " + rec.Internal
+	case !base.Model.Equal(rec.Contents):
+		msg = "the next Open shows wrong contents: " + base.Model.Diff(rec.Contents, func(k string) string { return fmt.Sprintf("%x", k) })
+	}
+	return false, err, msg
 }
 
 // c13FailedClose: a Close that fails (injected I/O error at each of its mutating file-system calls) has not
